@@ -339,6 +339,8 @@ impl<'a> Tr<'a> {
                     "u16" => Ok((format!("({} mod 65536)", a), Kind::Num)),
                     "u8" => Ok((format!("({} mod 256)", a), Kind::Num)),
                     "u64" | "usize" => Ok((a, Kind::Num)),
+                    // an unsizing cast (Box<T> as Box<dyn Trait>): the same value
+                    t if t.starts_with("Box<") => Ok((a, Kind::Other)),
                     _ => Err(format!("cast to {}", ty)),
                 }
             }
@@ -522,6 +524,28 @@ impl<'a> Tr<'a> {
                 }
                 Ok((if parts.is_empty() { "true".to_string() } else { format!("({})", parts.join(" && ")) }, Kind::Other))
             }
+            Expr::MethodCall(m) if m.method == "map" && m.args.len() == 1 && matches!(&m.args[0], Expr::Closure(_)) && !self.t.method.contains_key("map/1") => {
+                // iter.map(|x| body) with a pure body: the list of the bodies' values
+                let c = match &m.args[0] { Expr::Closure(c) => c, _ => unreachable!() };
+                let pname = match c.inputs.first() {
+                    Some(Pat::Ident(i)) if c.inputs.len() == 1 => i.ident.to_string(),
+                    Some(Pat::Reference(r)) if c.inputs.len() == 1 => match &*r.pat { Pat::Ident(i) => i.ident.to_string(), o => return Err(format!("closure parameter {}", toks(o))) },
+                    _ => return Err(format!("map with a closure whose parameter is not a plain name: {}", text)),
+                };
+                let (recv, _) = self.expr(&m.receiver, binds)?;
+                let saved = self.env.clone();
+                self.env.push(HashMap::new());
+                let kind = self.t.kinds.get(&pname).cloned().unwrap_or(Kind::Other);
+                let x = self.bind(&pname, kind);
+                let mut bb = Vec::new();
+                let body = self.expr(&c.body, &mut bb);
+                self.env = saved;
+                let (bv, _) = body?;
+                if !bb.is_empty() {
+                    return Err(format!("partial expression inside a map closure: {}", text));
+                }
+                Ok((format!("(map (fun {} => {}) {})", x, bv, recv), Kind::Other))
+            }
             Expr::MethodCall(m) if is_unwrap(m) && self.is_fallible(&m.receiver) => {
                 // Result::unwrap / expect on a fallible call: the error becomes a panic
                 let inner = self.res_expr(&m.receiver, binds)?;
@@ -563,7 +587,12 @@ impl<'a> Tr<'a> {
                 }
             }
             Expr::Call(c) if toks(&c.func) == "Some" && c.args.len() == 1 => {
-                let (v, _) = self.expr(&c.args[0], binds)?;
+                // Some(e) where an Option<T> is expected: e is expected to be a T
+                let ty = self.expect_ty.take();
+                self.expect_ty = ty.as_ref().and_then(|t| t.strip_prefix("Option<").and_then(|r| r.strip_suffix('>')).map(|x| x.to_string()));
+                let r = self.expr(&c.args[0], binds);
+                self.expect_ty = ty;
+                let (v, _) = r?;
                 Ok((format!("(Some {})", v), Kind::Other))
             }
             Expr::Call(c) => {
@@ -844,6 +873,27 @@ impl<'a> Tr<'a> {
             Expr::MethodCall(_) if mode == "result" && self.is_fallible(e) => {
                 let r = self.res_expr(e, binds)?;
                 return Ok(r);
+            }
+            Expr::MethodCall(m) if mode == "result" && m.method == "map" && m.args.len() == 1 && matches!(&m.args[0], Expr::Closure(_)) => {
+                // r.map(|x| body) returned as the function's Result: the Ok value is transformed
+                let c = match &m.args[0] { Expr::Closure(c) => c, _ => unreachable!() };
+                let name = match c.inputs.first() {
+                    Some(Pat::Ident(i)) if c.inputs.len() == 1 => i.ident.to_string(),
+                    _ => return Err(format!("map with a closure whose parameter is not a plain name: {}", toks(e))),
+                };
+                let mut rb = Vec::new();
+                let (recv, _) = self.expr(&m.receiver, &mut rb)?;
+                if !rb.is_empty() {
+                    return Err(format!("map on a receiver that is not a plain Result value: {}", toks(e)));
+                }
+                let saved = self.env.clone();
+                self.env.push(HashMap::new());
+                let x = self.bind(&name, Kind::Other);
+                let mut bb = Vec::new();
+                let body = self.expr(&c.body, &mut bb);
+                self.env = saved;
+                let (bv, _) = body?;
+                return Ok(format!("obind ({}) (fun {} =>\n{})", recv, x, Self::wrap_binds(bb, format!("Ok {}", bv))));
             }
             Expr::Call(c) if mode == "option" => {
                 let f = toks(&c.func);
@@ -1428,6 +1478,30 @@ impl<'a> Tr<'a> {
                     // let x = <place expression>;  x is another name of that place
                     self.place_alias.insert(name.clone(), pi);
                     return self.seq(rest, k);
+                }
+                // let x = self.helper(a, b);  where the private helper's whole body is a place expression over
+                // parameters that carry the same names as the arguments: x names that place
+                if let Expr::MethodCall(m) = &*init.expr {
+                    if toks(&m.receiver) == "self" {
+                        if let (Some(file), Some(ty)) = (self.file, self.self_ty.clone()) {
+                            if let Some((sig, block)) = find_fn(file, &format!("{}::{}", ty, m.method)) {
+                                let params: Vec<String> = sig.inputs.iter().filter_map(|a| match a {
+                                    syn::FnArg::Typed(p) => Some(match &*p.pat { Pat::Ident(i) => i.ident.to_string(), o => toks(o) }),
+                                    _ => None,
+                                }).collect();
+                                let same_names = params.len() == m.args.len()
+                                    && params.iter().zip(m.args.iter()).all(|(p, a)| { let t = toks(a); t == *p || t == format!("&{}", p) });
+                                if same_names && block.stmts.len() == 1 {
+                                    if let Stmt::Expr(body, None) = &block.stmts[0] {
+                                        if let Some(pi) = self.t.places.iter().position(|p| p.0 == toks(body)) {
+                                            self.place_alias.insert(name.clone(), pi);
+                                            return self.seq(rest, k);
+                                        }
+                                    }
+                                }
+                            }
+                        }
+                    }
                 }
                 let mut binds = Vec::new();
                 if let Expr::Struct(st) = &*init.expr {
